@@ -237,6 +237,91 @@ def run_burst(case, chooser):
         rig.close()
 
 
+# failures that come from the operating system itself, through the stock backends' own code (nothing is overridden):
+# /dev/full takes every write and fails when the data is really written out (for a buffered file: in flush or
+# close), /proc/self/mem opens and fails in the first read
+OS_TARGETS = {"full": "/dev/full", "mem": "/proc/self/mem"}
+OS_CASES = [("STOR full", n) for n in (1, 100, 8192, 8193, 20000)] + [("APPE full", n) for n in (1, 100, 20000)] + \
+           [("RETR mem", 0)]
+# ... and a directory the server process may not read (the list step fails with EACCES; the check runs as root, so
+# the effective user id is changed to "nobody" while the command is served)
+OS_CASES_UNPRIVILEGED = [("LIST secret", 0), ("MLSD secret", 0), ("LIST", 0), ("RETR secret/a", 0), ("MLST secret/a", 0)]
+
+
+def run_osfault(case, chooser):
+    import os
+    rig = Rig(chooser=chooser, n_sessions=1, tree=corpus.TREE, server_kwargs=dict(corpus.SERVER_KW), backend=case["backend"])
+    problems = []
+    try:
+        w = rig.world
+        for name, target in OS_TARGETS.items():
+            os.symlink(target, str(rig.base / name))
+        unpriv = (case["cmd"], case["size"]) in OS_CASES_UNPRIVILEGED
+        if unpriv:
+            if os.geteuid() != 0:
+                return {"problems": [], "faulted": False}
+            (rig.base / "secret").mkdir()
+            (rig.base / "secret" / "a").write_bytes(b"a")
+            os.chmod(rig.base / "secret", 0)
+            q = rig.base
+            while str(q).startswith("/dev/shm/") or str(q).startswith("/tmp/"):
+                os.chmod(q, 0o755)
+                q = q.parent
+            if case["cmd"] == "LIST":
+                os.chmod(rig.base, 0o311)
+        rig.ev(0, "@connect")
+        rig.ev(0, "USER anonymous")
+        s = rig.sessions[0]
+        for rest in ([] if not case.get("rest") else ["REST 3"]):
+            rig.ev(0, rest)
+        rig.ev(0, "EPSV")
+        rig.ev(0, "@data")
+        if unpriv:
+            os.seteuid(65534)
+        try:
+            codes = [c for c, _ in (rig.ev(0, case["cmd"]) or [])]
+        finally:
+            if unpriv:
+                os.seteuid(0)
+                os.chmod(rig.base / "secret", 0o755)
+                os.chmod(rig.base, 0o755)
+        if case["cmd"].split(" ")[0] in ("RETR", "LIST", "MLSD", "MLST"):
+            pass
+        else:
+            data = bytes(range(256)) * (case["size"] // 256 + 1)
+            rig.ev(0, "@dsend " + data[:case["size"]].decode("latin-1"))
+            rig.ev(0, "@dclose")
+        codes += [c for c, _ in (s.ctl.take_replies() or [])]
+        for _e, r in s.transcript[-3:]:
+            pass
+        allcodes = [c for e, r in s.transcript if e in (case["cmd"], "@dclose", "<late>") or e.startswith("@dsend") for c, _ in r]
+        final = [c for c in allcodes if c[0] != "1"]
+        sig_base = {"script_verb": case["cmd"].split(" ")[0], "failed_op": "os:" + (case["cmd"].split(" ") + ["."])[1], "mode": "os"}
+        if any(c[0] == "2" for c in final):
+            problems.append({"kind": "success-reply-after-backend-failure", "codes": allcodes, **sig_base})
+        elif final not in (["451"], ["550"]) or (final == ["550"] and not unpriv):
+            # (a path the server may not even look at can also be refused as not existing: 550)
+            problems.append({"kind": "backend-failure-not-answered-451", "codes": allcodes, **sig_base})
+        if any(c[0] == "1" for c in allcodes) and s.data is not None and not (s.data.closed_by_peer or s.data.t.closing):
+            problems.append({"kind": "data-connection-left-open-after-backend-failure", "codes": allcodes, **sig_base})
+        r = rig.ev(0, "PWD")
+        if [c for c, _ in (r or [])] != ["257"]:
+            problems.append({"kind": "session-unusable-after-backend-failure", "reply": r, **sig_base})
+        rig.ev(0, "EPSV")
+        rig.ev(0, "@data")
+        r = rig.ev(0, "RETR d/f")
+        if [c for c, _ in (r or [])] != ["150", "226"] or s.data is None or s.data.received != corpus.TREE["d"]["f"]:
+            problems.append({"kind": "transfer-after-backend-failure-failed", "reply": r, **sig_base})
+        return {"problems": problems, "faulted": True, "events": w.net.n_events, "trace": report.fp([w.net.trace, case]),
+                "outcome": report.fp([allcodes]), "calls": 0, "callnames": []}
+    finally:
+        rig.close()
+
+
+def _runner(case):
+    return {"burst": run_burst, "os": run_osfault}.get(case.get("mode"), run_fault)
+
+
 def solo_other(backend):
     rig = Rig(n_sessions=1, tree=corpus.TREE, server_kwargs=dict(corpus.SERVER_KW), backend=backend)
     try:
@@ -252,7 +337,7 @@ def solo_other(backend):
 def _work(item):
     case, bound, kinds = item
     part = report.Partial()
-    runner = run_burst if case.get("mode") == "burst" else run_fault
+    runner = _runner(case)
     try:
         for ch, res in explore(lambda c: runner(case, c), bound, kinds=kinds, max_exec=4000):
             if ch is None:
@@ -347,6 +432,14 @@ def build_items(tier):
                 for n in (1, 2):
                     items.append(({"mode": "burst", "script": "burst", "backend": backend, "cmd": cmd, "op": op, "n": n,
                                    "last": "QUIT", "suspend": True}, 1, ["done", "early", "order"]))
+    # failures of the operating system under the stock backends
+    for backend in ("pathio", "async"):
+        for cmd, size in OS_CASES + OS_CASES_UNPRIVILEGED:
+            for rest in (False, True):
+                if rest and (cmd, size) in OS_CASES_UNPRIVILEGED:
+                    continue
+                items.append(({"mode": "os", "script": "os", "backend": backend, "cmd": cmd, "size": size, "rest": rest,
+                               "op": "os:" + (cmd.split(" ") + ["."])[1]}, 0 if tier == "quick" else 1, kinds))
     return items
 
 
@@ -374,6 +467,6 @@ def run(tier, seed, t0):
 def replay(path):
     data = json.loads(open(path).read())
     rp = data["replay"]
-    res = run_fault(rp["case"], Chooser(rp["choices"], rp.get("kinds") or None))
+    res = _runner(rp["case"])(rp["case"], Chooser(rp["choices"], rp.get("kinds") or None))
     print(json.dumps({"case": rp["case"], "choices": rp["choices"], "problems": res["problems"]}, indent=1, default=repr))
     return 1 if res["problems"] else 0
